@@ -561,6 +561,11 @@ def plan_C06(prop, tier, seed, t0):
         # deep T-rich circuits: the decomposer meets cats with adjacent legs, 6-T groups with mixed phases (seeds C06_c, C06_d)
         dict(name="deep", engine="sim", args=["--quizx-bin", QUIZX_BIN, "--dir", simdir + "_deep", "--circuits", 40 if q else 300, "--shots", 3 if q else 6,
                                               "--queries", 4 if q else 8, "--minq", 2, "--maxq", 3, "--minlen", 30, "--maxlen", 60, "--alphabet", "ct"], **T),
+        # rz / rx angles that are not multiples of pi/4 ("non-Clifford+T phases, to tolerance"): amplitudes, expectation values, every draw of the
+        # sampler against the harness's float reference state vector, all methods, with and without -p 2 (ProbabilityFloatOK, ExpectationFloatOK,
+        # MarginalFloatOK, ConditionalFloatOK, SampleHasNonZeroProbability, QuerySucceeds)
+        dict(name="generic", engine="sim", args=["--quizx-bin", QUIZX_BIN, "--dir", simdir + "_generic", "--circuits", 0, "--shots", 4 if q else 8,
+                                                 "--queries", 6 if q else 10, "--generic", 150 if q else 2000], shards=max(2, NCPU // 2), **T),
     ]
     return run_plan(prop, tier, seed, t0, mcs, traces, "model_checking", COMMON_ASSUME + [
                         "printed decimals and the sampler's p are compared at 1e-9 (harness arithmetic) with values derived from the exact scalars that TLC validates",
@@ -573,7 +578,12 @@ def plan_C06(prop, tier, seed, t0):
                     "expectation / marginal it must be. Additions (--variants, docs/api_audit.md #13): per circuit the command without a task flag "
                     "(one shot), -s 0, the long flags --shots / --amplitude / --expval / --parallel, -p N for N in {0,1,3,4}, -o / --out (the answer "
                     "is read back from the file), malformed flag values; once per run unreadable / malformed input files (MalformedRejected), legal "
-                    "OpenQASM the front end does not support (UnsupportedInputNoPanic), a circuit with a measurement (outside the quantifier: counted)")
+                    "OpenQASM the front end does not support (UnsupportedInputNoPanic), a circuit with a measurement (outside the quantifier: counted)"
+                    "; GENERIC: circuits whose rz / rx angles are NOT multiples of pi/4 (n/d, d in 3,5,6,7,8,12,16) have no exact value in the ring: the harness "
+                    "computes the state vector with its float reference evaluator (harness/src/refeval.rs, validated against CircSem by TLC: RefEvalOK in the C08 "
+                    "traces) and compares the printed probability / expectation value (1e-9), every hooked marginal (1e-9) and every probability handed to the "
+                    "Bernoulli draw with the conditional probability (1e-8); TLC judges the logged booleans and QuerySucceeds (no panic, exit 0)",
+                    extra_cov_fn=lambda st, groups: {"generic_phase_circuits": st.get("generic_circuits", 0), "generic_phase_queries": st.get("generic_queries", 0)})
 
 
 def plan_C07(prop, tier, seed, t0):
